@@ -12,10 +12,309 @@ def firstFail (fails : Nat → Bool) (n : Nat) : Option Nat :=
 
 def noFault : Nat → Bool := fun _ => false
 
+namespace P
+
+/-- run a script of sink calls -/
+def run (fails : Nat → Bool) (w : W) (cs : List (List Char)) : W := cs.foldl (W.put fails) w
+
+def setFirst (w : W) (b : Bool) : W := { w with isFirst := b }
+
+theorem run_nil (fails : Nat → Bool) (w : W) : run fails w [] = w := rfl
+
+theorem run_cons (fails : Nat → Bool) (w : W) (c : List Char) (cs : List (List Char)) :
+    run fails w (c :: cs) = run fails (W.put fails w c) cs := rfl
+
+theorem run_append (fails : Nat → Bool) (w : W) (cs ds : List (List Char)) :
+    run fails w (cs ++ ds) = run fails (run fails w cs) ds := by
+  simp [run, List.foldl_append]
+
+theorem setFirst_self (w : W) : setFirst w w.isFirst = w := by
+  cases w; rfl
+
+theorem setFirst_setFirst (w : W) (a b : Bool) : setFirst (setFirst w a) b = setFirst w b := rfl
+
+theorem put_setFirst (fails : Nat → Bool) (w : W) (b : Bool) (s : List Char) :
+    W.put fails (setFirst w b) s = setFirst (W.put fails w s) b := by
+  unfold W.put setFirst
+  by_cases h1 : w.error = true <;> by_cases h2 : fails w.calls = true <;> simp [h1, h2]
+
+theorem run_setFirst (fails : Nat → Bool) (w : W) (b : Bool) (cs : List (List Char)) :
+    run fails (setFirst w b) cs = setFirst (run fails w cs) b := by
+  induction cs generalizing w with
+  | nil => rfl
+  | cons c cs ih => simp only [run_cons, put_setFirst, ih]
+
+theorem put_isFirst (fails : Nat → Bool) (w : W) (s : List Char) :
+    (W.put fails w s).isFirst = w.isFirst := by
+  unfold W.put
+  by_cases h1 : w.error = true <;> by_cases h2 : fails w.calls = true <;> simp [h1, h2]
+
+theorem put_nl (fails : Nat → Bool) (w : W) (s : List Char) :
+    (W.put fails w s).nl = w.nl := by
+  unfold W.put
+  by_cases h1 : w.error = true <;> by_cases h2 : fails w.calls = true <;> simp [h1, h2]
+
+theorem run_isFirst (fails : Nat → Bool) (w : W) (cs : List (List Char)) :
+    (run fails w cs).isFirst = w.isFirst := by
+  induction cs generalizing w with
+  | nil => rfl
+  | cons c cs ih => rw [run_cons, ih, put_isFirst]
+
+theorem run_nl (fails : Nat → Bool) (w : W) (cs : List (List Char)) :
+    (run fails w cs).nl = w.nl := by
+  induction cs generalizing w with
+  | nil => rfl
+  | cons c cs ih => rw [run_cons, ih, put_nl]
+
+/-- an operation of the writer is a fixed script of sink calls (depending only
+on the fault-independent fields `isFirst`, `nl`), plus an update of `isFirst` -/
+def Scripted (op : (Nat → Bool) → W → W) : Prop :=
+  ∀ first nl : Bool, ∃ (cs : List (List Char)) (b : Bool), ∀ (fails : Nat → Bool) (w : W),
+    w.isFirst = first → w.nl = nl → op fails w = run fails (setFirst w b) cs
+
+theorem Scripted.id : Scripted (fun _ w => w) := by
+  intro first nl
+  refine ⟨[], first, ?_⟩
+  intro fails w hf _
+  rw [run_nil, ← hf, setFirst_self]
+
+theorem Scripted.put (s : List Char) : Scripted (fun fails w => W.put fails w s) := by
+  intro first nl
+  refine ⟨[s], first, ?_⟩
+  intro fails w hf _
+  rw [← hf, setFirst_self]; rfl
+
+theorem Scripted.comp {op1 op2 : (Nat → Bool) → W → W} (h1 : Scripted op1) (h2 : Scripted op2) :
+    Scripted (fun fails w => op2 fails (op1 fails w)) := by
+  intro first nl
+  obtain ⟨cs1, b1, e1⟩ := h1 first nl
+  obtain ⟨cs2, b2, e2⟩ := h2 b1 nl
+  refine ⟨cs1 ++ cs2, b2, ?_⟩
+  intro fails w hf hn
+  have h3 : (run fails (setFirst w b1) cs1).isFirst = b1 := by rw [run_isFirst]; rfl
+  have h4 : (run fails (setFirst w b1) cs1).nl = nl := by rw [run_nl]; exact hn
+  show op2 fails (op1 fails w) = _
+  rw [e1 fails w hf hn, e2 fails _ h3 h4, ← run_setFirst, setFirst_setFirst, run_append]
+
+theorem Scripted.foldl {α : Type} (f : α → (Nat → Bool) → W → W) (hf : ∀ a, Scripted (f a))
+    (l : List α) : Scripted (fun fails w => l.foldl (fun w a => f a fails w) w) := by
+  induction l with
+  | nil => exact Scripted.id
+  | cons a l ih => exact Scripted.comp (hf a) ih
+
+theorem scripted_link (target : List Char) : Scripted (fun fails w => W.link fails w target) := by
+  intro first nl
+  cases first
+  · cases nl
+    · refine ⟨[[','], ['<'], target, ['>']], false, ?_⟩
+      intro fails w hf hn
+      rw [← hf, setFirst_self]
+      simp [W.link, hf, hn, run]
+    · refine ⟨[[','], ['\n', '\r'], ['<'], target, ['>']], false, ?_⟩
+      intro fails w hf hn
+      rw [← hf, setFirst_self]
+      simp [W.link, hf, hn, run]
+  · refine ⟨[['<'], target, ['>']], false, ?_⟩
+    intro fails w hf hn
+    simp [W.link, hf, run, setFirst]
+
+theorem scripted_keyEq (key : List Char) : Scripted (fun fails w => W.keyEq fails w key) :=
+  ((Scripted.put [';']).comp (Scripted.put key)).comp (Scripted.put ['='])
+
+theorem scripted_attrQuoted (key value : List Char) :
+    Scripted (fun fails w => W.attrQuoted fails w key value) := by
+  have hc : ∀ c : Char, Scripted (fun fails w =>
+      (if c = '"' || c = '\\' then W.put fails w ['\\'] else w).put fails [c]) := by
+    intro c
+    by_cases h : (c = '"' || c = '\\') = true
+    · simp only [h, if_true]
+      exact (Scripted.put ['\\']).comp (Scripted.put [c])
+    · simp only [h]
+      exact Scripted.put [c]
+  exact (((scripted_keyEq key).comp (Scripted.put ['"'])).comp
+    (Scripted.foldl (fun c fails w =>
+      (if c = '"' || c = '\\' then W.put fails w ['\\'] else w).put fails [c]) hc value)).comp
+    (Scripted.put ['"'])
+
+theorem scripted_attr (key value : List Char) :
+    Scripted (fun fails w => W.attr fails w key value) := by
+  by_cases h : value.any (fun c => !isAsciiAlnum c) = true
+  · have : (fun fails w => W.attr fails w key value) =
+        (fun fails w => W.attrQuoted fails w key value) := by
+      funext fails w; simp [W.attr, h]
+    rw [this]; exact scripted_attrQuoted key value
+  · have : (fun fails w => W.attr fails w key value) =
+        (fun fails w => (W.keyEq fails w key).put fails value) := by
+      funext fails w; simp only [W.attr, h]; rfl
+    rw [this]; exact (scripted_keyEq key).comp (Scripted.put value)
+
+theorem scripted_attrNum (key : List Char) (n : Nat) :
+    Scripted (fun fails w => W.attrNum fails w key n) :=
+  (scripted_keyEq key).comp (Scripted.put (Nat.toDigits 10 n))
+
+theorem scripted_attrSpec (a : AttrSpec) : Scripted (fun fails w => W.attrSpec fails w a) := by
+  cases a with
+  | plain k v => exact scripted_attr k v
+  | quoted k v => exact scripted_attrQuoted k v
+  | num k n => exact scripted_attrNum k n
+
+/-- the whole document is one script, independent of the fault schedule -/
+theorem writeDoc_script (nl : Bool) (d : Doc) : ∃ (cs : List (List Char)) (b : Bool),
+    ∀ fails, writeDoc fails nl d = run fails (setFirst (W.new nl) b) cs := by
+  have h : Scripted (fun fails w =>
+      d.foldl (fun w l => (fun (l : List Char × List AttrSpec) fails w =>
+        l.2.foldl (fun w a => W.attrSpec fails w a) (W.link fails w l.1)) l fails w) w) :=
+    Scripted.foldl _ (fun l => (scripted_link l.1).comp (Scripted.foldl _ scripted_attrSpec l.2)) d
+  obtain ⟨cs, b, e⟩ := h true nl
+  exact ⟨cs, b, fun fails => e fails (W.new nl) rfl rfl⟩
+
+/-! ### facts about running a script under a fault schedule -/
+
+theorem run_err (fails : Nat → Bool) (w : W) (cs : List (List Char)) (hw : w.error = true) :
+    run fails w cs = w := by
+  induction cs with
+  | nil => rfl
+  | cons c cs ih =>
+    rw [run_cons]
+    have : W.put fails w c = w := by simp [W.put, hw]
+    rw [this, ih]
+
+theorem run_ok (fails : Nat → Bool) (w : W) (cs : List (List Char)) (hw : w.error = false)
+    (h : ∀ i, w.calls ≤ i → i < w.calls + cs.length → fails i = false) :
+    run fails w cs = { w with calls := w.calls + cs.length, sink := w.sink ++ cs.flatten } := by
+  induction cs generalizing w with
+  | nil => cases w; simp [run]
+  | cons c cs ih =>
+    have h0 : fails w.calls = false := h _ (Nat.le_refl _) (by simp)
+    have hp : W.put fails w c = { w with calls := w.calls + 1, sink := w.sink ++ c } := by
+      simp [W.put, hw, h0]
+    rw [run_cons, hp]
+    refine (ih _ (by exact hw) ?_).trans ?_
+    · intro i h1 h2
+      apply h i
+      · simp at h1; omega
+      · simp at h2 ⊢; omega
+    · simp [Nat.add_assoc, Nat.add_comm 1]
+
+theorem run_fail (fails : Nat → Bool) (w : W) (cs : List (List Char)) (k : Nat)
+    (hw : w.error = false) (hk1 : w.calls ≤ k) (hk2 : k < w.calls + cs.length)
+    (hf : fails k = true) (hlt : ∀ i, w.calls ≤ i → i < k → fails i = false) :
+    run fails w cs = { w with calls := k + 1, error := true,
+                              sink := w.sink ++ (cs.take (k - w.calls)).flatten } := by
+  induction cs generalizing w with
+  | nil => simp at hk2; omega
+  | cons c cs ih =>
+    rw [run_cons]
+    by_cases hk : k = w.calls
+    · subst hk
+      have hp : W.put fails w c = { w with calls := w.calls + 1, error := true } := by
+        simp [W.put, hw, hf]
+      rw [hp, run_err _ _ _ rfl]
+      simp
+    · have h0 : fails w.calls = false := hlt _ (Nat.le_refl _) (by omega)
+      have hp : W.put fails w c = { w with calls := w.calls + 1, sink := w.sink ++ c } := by
+        simp [W.put, hw, h0]
+      rw [hp]
+      refine (ih _ (by exact hw) ?_ ?_ ?_).trans ?_
+      rotate_left 3
+      · have : k - w.calls = (k - (w.calls + 1)) + 1 := by omega
+        rw [this, List.take_succ_cons]
+        simp
+      · show w.calls + 1 ≤ k; omega
+      · show k < w.calls + 1 + cs.length; simp at hk2; omega
+      · intro i h1 h2
+        exact hlt i (by simp at h1; omega) h2
+
+theorem firstFail_none {fails : Nat → Bool} {n : Nat} (h : firstFail fails n = none) :
+    ∀ i, i < n → fails i = false := by
+  unfold firstFail at h
+  rw [List.find?_range_eq_none] at h
+  intro i hi
+  simpa using h i hi
+
+theorem firstFail_some {fails : Nat → Bool} {n k : Nat} (h : firstFail fails n = some k) :
+    k < n ∧ fails k = true ∧ ∀ i, i < k → fails i = false := by
+  unfold firstFail at h
+  rw [List.find?_range_eq_some] at h
+  refine ⟨by simpa using h.2.1, h.1, ?_⟩
+  intro i hi
+  simpa using h.2.2 i hi
+
+theorem noFault_facts (nl : Bool) (d : Doc) {cs : List (List Char)} {b : Bool}
+    (e : ∀ fails, writeDoc fails nl d = run fails (setFirst (W.new nl) b) cs) :
+    (writeDoc noFault nl d).calls = cs.length ∧ (writeDoc noFault nl d).sink = cs.flatten ∧
+    (writeDoc noFault nl d).error = false := by
+  have e0 := run_ok noFault (setFirst (W.new nl) b) cs rfl (fun _ _ _ => rfl)
+  rw [e noFault, e0]
+  simp [setFirst, W.new]
+
+theorem write_faults_aux (fails : Nat → Bool) (nl : Bool) (d : Doc) :
+    ((writeDoc fails nl d).finish = false ↔
+      ∃ k, k < (writeDoc noFault nl d).calls ∧ fails k = true) ∧
+    (writeDoc fails nl d).sink <+: (writeDoc noFault nl d).sink ∧
+    (match firstFail fails (writeDoc noFault nl d).calls with
+     | some k => (writeDoc fails nl d).calls = k + 1 ∧ (writeDoc fails nl d).error = true
+     | none => writeDoc fails nl d = writeDoc noFault nl d) := by
+  obtain ⟨cs, b, e⟩ := writeDoc_script nl d
+  obtain ⟨hc, hs, he⟩ := noFault_facts nl d e
+  have e0 := run_ok noFault (setFirst (W.new nl) b) cs rfl (fun _ _ _ => rfl)
+  rw [hc]
+  cases hff : firstFail fails cs.length with
+  | none =>
+    have hall := firstFail_none hff
+    have hw : writeDoc fails nl d = writeDoc noFault nl d := by
+      rw [e fails, e noFault, e0,
+        run_ok fails _ cs rfl (fun i _ hi => hall i (by simpa [setFirst, W.new] using hi))]
+    refine ⟨?_, ?_, hw⟩
+    · rw [hw]
+      simp only [W.finish, he]
+      constructor
+      · intro h; simp at h
+      · rintro ⟨k, hk, hfk⟩
+        rw [hall k hk] at hfk
+        simp at hfk
+    · rw [hw]; exact List.prefix_refl _
+  | some k =>
+    obtain ⟨hk, hfk, hlt⟩ := firstFail_some hff
+    have hr := run_fail fails (setFirst (W.new nl) b) cs k rfl (Nat.zero_le _)
+      (by simpa [setFirst, W.new] using hk) hfk (fun i _ hi => hlt i hi)
+    have hcalls : (writeDoc fails nl d).calls = k + 1 := by rw [e fails, hr]
+    have herr : (writeDoc fails nl d).error = true := by rw [e fails, hr]
+    have hsink : (writeDoc fails nl d).sink = (cs.take k).flatten := by
+      rw [e fails, hr]; simp [setFirst, W.new]
+    refine ⟨?_, ?_, hcalls, herr⟩
+    · simp only [W.finish, herr]
+      constructor
+      · intro _; exact ⟨k, hk, hfk⟩
+      · intro _; rfl
+    · rw [hsink, hs]
+      have : cs.flatten = (cs.take k).flatten ++ (cs.drop k).flatten := by
+        rw [← List.flatten_append, List.take_append_drop]
+      rw [this]
+      exact List.prefix_append _ _
+
+theorem sink_fail_eq (f g : Nat → Bool) (nl : Bool) (d : Doc) (k : Nat)
+    (hk : k < (writeDoc noFault nl d).calls)
+    (hf : f k = true) (hf' : ∀ i, i < k → f i = false)
+    (hg : g k = true) (hg' : ∀ i, i < k → g i = false) :
+    (writeDoc f nl d).sink = (writeDoc g nl d).sink := by
+  obtain ⟨cs, b, e⟩ := writeDoc_script nl d
+  obtain ⟨hc, _, _⟩ := noFault_facts nl d e
+  rw [hc] at hk
+  have hr1 := run_fail f (setFirst (W.new nl) b) cs k rfl (Nat.zero_le _)
+      (by simpa [setFirst, W.new] using hk) hf (fun i _ hi => hf' i hi)
+  have hr2 := run_fail g (setFirst (W.new nl) b) cs k rfl (Nat.zero_le _)
+      (by simpa [setFirst, W.new] using hk) hg (fun i _ hi => hg' i hi)
+  rw [e f, e g, hr1, hr2]
+
+end P
+
 /-- the fault-free run is complete and successful -/
 theorem write_ok (nl : Bool) (d : Doc) :
     (writeDoc noFault nl d).finish = true ∧ (writeDoc noFault nl d).error = false := by
-  sorry
+  obtain ⟨cs, b, e⟩ := P.writeDoc_script nl d
+  obtain ⟨_, _, he⟩ := P.noFault_facts nl d e
+  simp [W.finish, he]
 
 /-- For every fault schedule: the result is an error iff some call that the
 fault-free run issues fails; the sink holds a prefix of the fault-free output;
@@ -29,7 +328,7 @@ theorem write_faults (fails : Nat → Bool) (nl : Bool) (d : Doc) :
     (match firstFail fails w0.calls with
      | some k => w.calls = k + 1 ∧ w.error = true
      | none => w = w0) := by
-  sorry
+  exact P.write_faults_aux fails nl d
 
 /-- the sink content after a failure at call `k` is exactly what the fault-free
 run had written after its first `k` calls (the failed call contributes nothing) -/
@@ -38,6 +337,13 @@ theorem sink_at_failure (fails : Nat → Bool) (nl : Bool) (d : Doc) (k : Nat)
     (writeDoc fails nl d).sink =
       (writeDoc (fun i => decide (i ≥ k)) nl d).sink ∧
     (writeDoc fails nl d).sink = (writeDoc (fun i => decide (i = k)) nl d).sink := by
-  sorry
+  obtain ⟨hk', hfk, hlt⟩ := P.firstFail_some hk
+  constructor
+  · apply P.sink_fail_eq fails _ nl d k hk' hfk hlt
+    · simp
+    · intro i hi; simp; omega
+  · apply P.sink_fail_eq fails _ nl d k hk' hfk hlt
+    · simp
+    · intro i hi; simp; omega
 
 end CoapLite.Link
